@@ -513,9 +513,9 @@ def run_harness(ub, h):
     if h.get("unwindset") and "--unwinding-assertions" not in flags:
         flags += ["--unwinding-assertions"]
     flags += [subst(x, ub.env) for x in h.get("cbmc_flags", [])]
-    timeout = h.get("timeout", {"quick": 300, "thorough": 1800})
+    timeout = h.get("timeout", {"quick": 900, "thorough": 3600})
     if isinstance(timeout, dict):
-        timeout = timeout.get(ub.tier, 300)
+        timeout = timeout.get(ub.tier, 900)
     outj = os.path.join(sdir, name + ".out.json")
     cmd = ["cbmc", cur] + flags + ["--trace", "--json-ui"]
     rc, out, err, secs = run(cmd, timeout, stdout_path=outj)
